@@ -462,6 +462,134 @@ func c13Units(ctx *core.Ctx) []core.Unit {
 		r.Traces = r.Transitions
 		r.Sample(map[string]interface{}{"call": "CreateMultiProof(n=2 sharing an index)", "checked": "shared fingerprint (config ~" + fmt.Sprint(d.N>>20) + " MiB + package variables), argument deep copies up to capacity, result digest"})
 	}})
+	us = append(us, core.Unit{Name: "the same argument buffers reused with different content (results must not be remembered per address)", Run: func(ctx *core.Ctx, r *core.Result) {
+		needRef()
+		c := conf()
+		polys := polyAlphabet(ctx.Seed)
+		// persistent buffers, overwritten in place for every variant
+		poly := make([]fr.Element, 256)
+		poly2 := make([]fr.Element, 256)
+		pts := make([]banderwagon.Element, 4)
+		sc := make([]fr.Element, 4)
+		var el, el2 banderwagon.Element
+		ptrs := []*banderwagon.Element{&el, &el2, &el}
+		buf32 := make([]byte, 32)
+		fsBuf := [][]fr.Element{poly, poly2}
+		zsBuf := []uint8{0, 0}
+		CsBuf := []*banderwagon.Element{&el, &el2}
+		var prBuf ipa.IPAProof
+		res := []*fr.Element{new(fr.Element), new(fr.Element), new(fr.Element)}
+		fill := func(v int, fresh bool) (fPoly, fPoly2 []fr.Element, fPts []banderwagon.Element, fSc []fr.Element, fPtrs []*banderwagon.Element, fBuf []byte, fFs [][]fr.Element, fZs []uint8, fCs []*banderwagon.Element, fRes []*fr.Element) {
+			fPoly, fPoly2, fPts, fSc, fPtrs, fBuf, fFs, fZs, fCs, fRes = poly, poly2, pts, sc, ptrs, buf32, fsBuf, zsBuf, CsBuf, res
+			if fresh {
+				fPoly, fPoly2 = make([]fr.Element, 256), make([]fr.Element, 256)
+				fPts, fSc = make([]banderwagon.Element, 4), make([]fr.Element, 4)
+				a, b := new(banderwagon.Element), new(banderwagon.Element)
+				fPtrs = []*banderwagon.Element{a, b, a}
+				fBuf = make([]byte, 32)
+				fFs = [][]fr.Element{fPoly, fPoly2}
+				fZs = []uint8{0, 0}
+				fCs = []*banderwagon.Element{a, b}
+				fRes = []*fr.Element{new(fr.Element), new(fr.Element), new(fr.Element)}
+			}
+			copy(fPoly, frsFromBig(pick(polys, 8+v).V))
+			copy(fPoly2, frsFromBig(pick(polys, 11+v).V))
+			for i := range fPts {
+				fPts[i] = reprOf(c.SRS[(i*17+v*5)%256], (i+v)%nRepr)
+				fSc[i] = frFromBig(msmScalar(ctx.Seed, i+v*4, 0))
+			}
+			*fPtrs[0] = reprOf(c.SRS[(40+v)%256], 1+v%3)
+			*fPtrs[1] = reprOf(c.SRS[(90+v*3)%256], 1+(v+1)%3)
+			b := c.SRS[(200+v)%256].Bytes()
+			copy(fBuf, b[:])
+			fZs[0], fZs[1] = uint8(3+v), uint8(200-v)
+			return
+		}
+		type call struct {
+			name string
+			f    func(fPoly, fPoly2 []fr.Element, fPts []banderwagon.Element, fSc []fr.Element, fPtrs []*banderwagon.Element, fBuf []byte, fFs [][]fr.Element, fZs []uint8, fCs []*banderwagon.Element, fRes []*fr.Element, pr *ipa.IPAProof) string
+		}
+		calls := []call{
+			{"Commit", func(p, _ []fr.Element, _ []banderwagon.Element, _ []fr.Element, _ []*banderwagon.Element, _ []byte, _ [][]fr.Element, _ []uint8, _ []*banderwagon.Element, _ []*fr.Element, _ *ipa.IPAProof) string {
+				e := c.Commit(p)
+				return dg(e.Bytes())
+			}},
+			{"MultiScalar", func(_, _ []fr.Element, ps []banderwagon.Element, ss []fr.Element, _ []*banderwagon.Element, _ []byte, _ [][]fr.Element, _ []uint8, _ []*banderwagon.Element, _ []*fr.Element, _ *ipa.IPAProof) string {
+				e, err := ipa.MultiScalar(ps, ss)
+				return dg(e.Bytes(), err)
+			}},
+			{"ElementsToBytes/BatchMapToScalarField/Bytes/MapToScalarField", func(_, _ []fr.Element, _ []banderwagon.Element, _ []fr.Element, pp []*banderwagon.Element, _ []byte, _ [][]fr.Element, _ []uint8, _ []*banderwagon.Element, rs []*fr.Element, _ *ipa.IPAProof) string {
+				x := banderwagon.ElementsToBytes(pp...)
+				err := banderwagon.BatchMapToScalarField(rs, pp)
+				var m fr.Element
+				pp[0].MapToScalarField(&m)
+				return dg(x, frToBig(*rs[0]), frToBig(*rs[1]), frToBig(*rs[2]), err, pp[1].Bytes(), frToBig(m))
+			}},
+			{"SetBytes/ReadPoint", func(_, _ []fr.Element, _ []banderwagon.Element, _ []fr.Element, _ []*banderwagon.Element, b []byte, _ [][]fr.Element, _ []uint8, _ []*banderwagon.Element, _ []*fr.Element, _ *ipa.IPAProof) string {
+				var e banderwagon.Element
+				err := e.SetBytes(b)
+				p, err2 := common.ReadPoint(bytes.NewReader(b))
+				return dg(elString(&e), err, p != nil && p.Equal(&e), err2)
+			}},
+			{"DivideOnDomain/BatchInvert", func(p, _ []fr.Element, _ []banderwagon.Element, ss []fr.Element, _ []*banderwagon.Element, _ []byte, _ [][]fr.Element, zs []uint8, _ []*banderwagon.Element, _ []*fr.Element, _ *ipa.IPAProof) string {
+				q := c.PrecomputedWeights.DivideOnDomain(zs[0], p)
+				return dg(frsDigest(q), frsDigest(fr.BatchInvert(ss)))
+			}},
+			{"CreateMultiProof+CheckMultiProof", func(_, _ []fr.Element, _ []banderwagon.Element, _ []fr.Element, _ []*banderwagon.Element, _ []byte, fs [][]fr.Element, zs []uint8, Cs []*banderwagon.Element, _ []*fr.Element, _ *ipa.IPAProof) string {
+				*Cs[0] = c.Commit(fs[0])
+				*Cs[1] = c.Commit(fs[1])
+				p, err := multiproof.CreateMultiProof(common.NewTranscript("vt"), c, Cs, fs, zs)
+				if err != nil {
+					return dg(err)
+				}
+				y0, y1 := fs[0][zs[0]], fs[1][zs[1]]
+				ok, verr := multiproof.CheckMultiProof(common.NewTranscript("vt"), c, p, Cs, []*fr.Element{&y0, &y1}, zs)
+				return dg(hx(proofBytes(p)), ok, verr)
+			}},
+			{"CreateIPAProof+CheckIPAProof through one reused proof object", func(p, _ []fr.Element, _ []banderwagon.Element, _ []fr.Element, _ []*banderwagon.Element, _ []byte, _ [][]fr.Element, zs []uint8, _ []*banderwagon.Element, _ []*fr.Element, pr *ipa.IPAProof) string {
+				cm := c.Commit(p)
+				z := frFromBig(bi(int64(300 + int(zs[0]))))
+				np, err := ipa.CreateIPAProof(common.NewTranscript("ipa"), c, cm, p, z)
+				if err != nil {
+					return dg(err)
+				}
+				// overwrite the contents of the reused proof object in place
+				if len(pr.L) == len(np.L) {
+					copy(pr.L, np.L)
+					copy(pr.R, np.R)
+					pr.A_scalar = np.A_scalar
+				} else {
+					*pr = np
+				}
+				b := c.PrecomputedWeights.ComputeBarycentricCoefficients(z)
+				y, _ := ipa.InnerProd(p, b)
+				ok, verr := ipa.CheckIPAProof(common.NewTranscript("ipa"), c, cm, *pr, z, y)
+				return dg(hx(ipaProofBytes(pr)), ok, verr)
+			}},
+		}
+		for _, cl := range calls {
+			for _, v := range []int{0, 1, 2, 0, 2} {
+				a1, a2, a3, a4, a5, a6, a7, a8, a9, a10 := fill(v, true)
+				var frp ipa.IPAProof
+				want := cl.f(a1, a2, a3, a4, a5, a6, a7, a8, a9, a10, &frp)
+				b1, b2, b3, b4, b5, b6, b7, b8, b9, b10 := fill(v, false)
+				desc := fmt.Sprintf("%s: persistent argument buffers refilled with variant %d", cl.name, v)
+				var got string
+				if !guard(r, "c13.panic", cl.name, desc, func() { got = cl.f(b1, b2, b3, b4, b5, b6, b7, b8, b9, b10, &prBuf) }) {
+					continue
+				}
+				r.Evals++
+				r.Transitions++
+				r.Nontrivial++
+				if got != want {
+					vio(r, "c13.history", cl.name, desc, "same result as with freshly allocated arguments holding the same values", "different result")
+				}
+			}
+		}
+		r.States = 1
+		r.Traces = r.Transitions
+		r.Sample(map[string]interface{}{"history": "MultiScalar over the same slices refilled with variants 0,1,2,0,2", "oracle": "result with freshly allocated arguments of equal value"})
+	}})
 	depth := 2
 	if ctx.Thorough() {
 		depth = 3
